@@ -26,3 +26,148 @@ package hotspot
 //@   modifies gCache
 //@   witness threshold = c.threshold
 //@   replay hotspot_concurrency_first
+
+// ---- argument selection: attachment key first, then index (negative from the end), nil when absent
+//@ func (c *baseTrafficShapingController) ExtractArgs(ctx) value
+//@   props C05, C06
+//@   requires c != nil ==> ctx != nil && ctx.Input != nil
+//@   let att = ctx.Input.Attachments
+//@   let args = ctx.Input.Args
+//@   let key = asiface(c.paramKey)
+//@   let idx = c.paramIndex < 0 ? len(args) + c.paramIndex : c.paramIndex
+//@   let keyed = c != nil && att != nil && c.paramKey != "" && att[key] != nil
+//@   ensures[nil-controller] c == nil ==> value == nil
+//@   ensures[key-first] keyed ==> value == att[key]
+//@   ensures[then-index] c != nil && !keyed && 0 <= idx && idx < len(args) ==> value == args[idx]
+//@   ensures[absent] c != nil && !keyed && !(0 <= idx && idx < len(args)) ==> value == nil
+//@   modifies nothing
+
+// ---- controllers are consulted through their interface; their rule, metric and parameter selection are fixed at
+// construction, and the request context is not modified while a slot runs (stable reads)
+//@ iface TrafficShapingController.BoundRule() r
+//@   stable
+//@ iface TrafficShapingController.ExtractArgs(ctx) r
+//@   stable
+//@ iface TrafficShapingController.BoundMetric() r
+//@   stable
+//@ iface TrafficShapingController.BoundParamIndex() r
+//@   stable
+
+// ---- C06: every admitted entry occupies exactly one unit of the value it was admitted with, released on exit
+//@ spec func counterOf(tc, ctx) = cellOf(tc.BoundMetric().ConcurrencyCounter, tc.ExtractArgs(ctx))
+//@ spec func counts(tc, ctx) = tc.BoundRule().MetricType == Concurrency && tc.ExtractArgs(ctx) != nil && counterOf(tc, ctx) != 0
+//@ spec func tcsOK(tcs, ctx) = (forall k Int :: 0 <= k && k < len(tcs) ==> tcs[k] != nil && tcs[k].BoundRule() != nil && (tcs[k].BoundRule().MetricType == Concurrency ==> tcs[k].BoundMetric() != nil && tcs[k].BoundMetric().ConcurrencyCounter != nil)) && (forall k Int :: 0 <= k && k < len(tcs) && counts(tcs[k], ctx) ==> allocated(counterOf(tcs[k], ctx)) && 0 - 4611686018427387904 < cell(counterOf(tcs[k], ctx)) && cell(counterOf(tcs[k], ctx)) < 4611686018427387904) && (forall j Int :: forall k Int :: 0 <= j && j < k && k < len(tcs) && counts(tcs[j], ctx) && counts(tcs[k], ctx) ==> counterOf(tcs[j], ctx) != counterOf(tcs[k], ctx))
+
+//@ func (c *ConcurrencyStatSlot) OnEntryPassed(ctx)
+//@   props C06
+//@   requires ctx != nil && ctx.Resource != nil
+//@   let tcs = tcMap[ctx.Resource.name]
+//@   requires tcsOK(tcs, ctx)
+//@   ensures[one-unit-per-rule] forall k Int :: 0 <= k && k < len(tcs) && counts(tcs[k], ctx) ==> cell(counterOf(tcs[k], ctx)) == old(cell(counterOf(tcs[k], ctx))) + 1
+//@   ensures[nothing-else] forall p Int :: old(allocated(p)) && (forall k Int :: 0 <= k && k < len(tcs) && counts(tcs[k], ctx) ==> p != counterOf(tcs[k], ctx)) ==> cell(p) == old(cell(p))
+//@   ensures[cache-untouched] gCache == old(gCache)
+//@   loop 1:
+//@     invariant[done] forall k Int :: 0 <= k && k < #i && counts(tcs[k], ctx) ==> cell(counterOf(tcs[k], ctx)) == old(cell(counterOf(tcs[k], ctx))) + 1
+//@     invariant[todo] forall k Int :: #i <= k && k < len(tcs) && counts(tcs[k], ctx) ==> cell(counterOf(tcs[k], ctx)) == old(cell(counterOf(tcs[k], ctx)))
+//@     invariant[others] forall p Int :: old(allocated(p)) && (forall k Int :: 0 <= k && k < len(tcs) && counts(tcs[k], ctx) ==> p != counterOf(tcs[k], ctx)) ==> cell(p) == old(cell(p))
+//@     invariant[cache] gCache == old(gCache)
+
+//@ func (c *ConcurrencyStatSlot) OnCompleted(ctx)
+//@   props C06
+//@   requires ctx != nil && ctx.Resource != nil
+//@   let tcs = tcMap[ctx.Resource.name]
+//@   requires tcsOK(tcs, ctx)
+//@   ensures[unit-released-per-rule] forall k Int :: 0 <= k && k < len(tcs) && counts(tcs[k], ctx) ==> cell(counterOf(tcs[k], ctx)) == old(cell(counterOf(tcs[k], ctx))) - 1
+//@   ensures[nothing-else] forall p Int :: old(allocated(p)) && (forall k Int :: 0 <= k && k < len(tcs) && counts(tcs[k], ctx) ==> p != counterOf(tcs[k], ctx)) ==> cell(p) == old(cell(p))
+//@   ensures[cache-untouched] gCache == old(gCache)
+//@   loop 1:
+//@     invariant[done] forall k Int :: 0 <= k && k < #i && counts(tcs[k], ctx) ==> cell(counterOf(tcs[k], ctx)) == old(cell(counterOf(tcs[k], ctx))) - 1
+//@     invariant[todo] forall k Int :: #i <= k && k < len(tcs) && counts(tcs[k], ctx) ==> cell(counterOf(tcs[k], ctx)) == old(cell(counterOf(tcs[k], ctx)))
+//@     invariant[others] forall p Int :: old(allocated(p)) && (forall k Int :: 0 <= k && k < len(tcs) && counts(tcs[k], ctx) ==> p != counterOf(tcs[k], ctx)) ==> cell(p) == old(cell(p))
+//@     invariant[cache] gCache == old(gCache)
+
+// ---- C05: reject-mode token bucket of one argument value (sequential clause set).  time / tokens are the two cells
+// bound to the value in the rule's caches; nothing of any other value is read or written.
+//@ spec func small40(v) = 0 - 1099511627776 < v && v < 1099511627776
+//@ func (c *rejectTrafficShapingController) PerformChecking(arg, batchCount) r
+//@   props C05
+//@   requires c != nil && c.metricType == QPS && c.metric != nil && c.metric.RuleTimeCounter != nil && c.metric.RuleTokenCounter != nil && dynptr(c.metric.RuleTimeCounter) != dynptr(c.metric.RuleTokenCounter)
+//@   let tc = c.metric.RuleTimeCounter
+//@   let kc = c.metric.RuleTokenCounter
+//@   let T = thrOf(c.baseTrafficShapingController, arg)
+//@   let max = T + c.burstCount
+//@   let D = c.durationInSec * 1000
+//@   let tcell = cellOf(tc, arg)
+//@   let kcell = cellOf(kc, arg)
+//@   requires c.durationInSec > 0 && c.durationInSec < 1048576 && T < 1048576 && 0 - 1048576 < T && small40(c.burstCount) && c.burstCount >= 0 && small40(batchCount) && batchCount >= 0 && clock_ms > 0
+//@   requires (tcell != 0 ==> allocated(tcell) && 0 <= cell(tcell) && cell(tcell) <= clock_ms) && (kcell != 0 ==> allocated(kcell) && small40(cell(kcell))) && tcell != kcell || tcell == 0
+//@   let time0 = cell(tcell)
+//@   let rest0 = cell(kcell)
+//@   let valid = T > 0 && batchCount <= max
+//@   ensures[bad-threshold] T <= 0 ==> blocked(r) && gCache == old(gCache)
+//@   ensures[batch-above-capacity] T > 0 && batchCount > max ==> blocked(r) && gCache == old(gCache)
+//@   ensures[first-sight] valid && tcell == 0 ==> !blocked(r) && cellOf(tc, arg) != 0 && cell(cellOf(tc, arg)) == clock_ms && (kcell == 0 ==> cell(cellOf(kc, arg)) == max - batchCount)
+//@   ensures[refill] forall pt Int :: forall add Int :: pt == clock_ms - time0 && add == pt * T / D && valid && tcell != 0 && kcell != 0 && pt > D ==> (blocked(r) <==> min(rest0 + add, max) - batchCount < 0) && (!blocked(r) ==> cell(kcell) == min(rest0 + add, max) - batchCount && cell(tcell) == clock_ms && 0 <= cell(kcell) && cell(kcell) <= max) && (blocked(r) ==> cell(kcell) == rest0 && cell(tcell) == time0)
+//@   ensures[within-duration] valid && tcell != 0 && kcell != 0 && clock_ms - time0 <= D ==> (blocked(r) <==> rest0 - batchCount < 0) && cell(tcell) == time0 && cell(kcell) == (blocked(r) ? rest0 : rest0 - batchCount)
+//@   ensures[other-values-untouched] forall k Iface :: k != arg ==> cellOf(tc, k) == old(cellOf(tc, k)) && cellOf(kc, k) == old(cellOf(kc, k))
+//@   ensures[pass-is-nil] !blocked(r) ==> r == nil
+//@   loop 1:
+//@     invariant[untouched-so-far] gCache == old(gCache) && frame()
+
+// ---- C05: throttling mode of one argument value (sequential clause set)
+//@ spec func waiting(r) = r != nil && r.status == base.ResultStatusShouldWait
+//@ func (c *throttlingTrafficShapingController) PerformChecking(arg, batchCount) r
+//@   props C05
+//@   requires c != nil && c.metricType == QPS && c.metric != nil && c.metric.RuleTimeCounter != nil && c.metric.RuleTokenCounter != nil
+//@   let tc = c.metric.RuleTimeCounter
+//@   let T = thrOf(c.baseTrafficShapingController, arg)
+//@   let tcell = cellOf(tc, arg)
+//@   let last = cell(tcell)
+//@   requires c.durationInSec > 0 && c.durationInSec < 1048576 && T < 1048576 && 0 - 1048576 < T && 0 <= batchCount && batchCount < 1048576 && 0 <= c.maxQueueingTimeMs && c.maxQueueingTimeMs < 1099511627776
+//@   requires tcell != 0 ==> allocated(tcell) && 0 <= cell(tcell) && cell(tcell) < 4398046511104
+//@   let interval = batchCount * c.durationInSec * 1000 / T
+//@   ensures[bad-threshold] T <= 0 ==> blocked(r) && gCache == old(gCache)
+//@   ensures[first-sight] T > 0 && tcell == 0 ==> r == nil && cellOf(tc, arg) != 0 && cell(cellOf(tc, arg)) == clock_ms
+//@   ensures[reject-iff] T > 0 && tcell != 0 ==> (blocked(r) <==> last + interval > clock_ms && last + interval - clock_ms >= c.maxQueueingTimeMs)
+//@   ensures[reject-unchanged] T > 0 && tcell != 0 && blocked(r) ==> cell(tcell) == last
+//@   ensures[pass-time] T > 0 && tcell != 0 && !blocked(r) ==> cell(tcell) == max(last + interval, clock_ms)
+//@   ensures[wait] T > 0 && tcell != 0 && !blocked(r) ==> (last + interval <= clock_ms ==> r == nil) && (last + interval > clock_ms ==> waiting(r) && r.nanosToWait == (last + interval - clock_ms) * 1000000 && last + interval - clock_ms < c.maxQueueingTimeMs)
+//@   ensures[spacing-of-scheduled-passes] T > 0 && tcell != 0 && !blocked(r) ==> cell(tcell) >= last + interval
+//@   ensures[spacing-at-least-exact-quotient] T > 0 && tcell != 0 && !blocked(r) ==> R(cell(tcell) - last) * R(T) >= R(batchCount * c.durationInSec * 1000)
+//@   witness T = thrOf(c.baseTrafficShapingController, arg)
+//@   witness batch = batchCount
+//@   witness dur = c.durationInSec
+//@   replay hotspot_throttling_spacing
+//@   ensures[other-values-untouched] forall k Iface :: k != arg ==> cellOf(tc, k) == old(cellOf(tc, k))
+//@   loop 1:
+//@     invariant[untouched-so-far] gCache == old(gCache) && frame()
+
+// ---- the hotspot rule-check slot: requests without the selected argument are never limited; otherwise the
+// controllers of the resource are consulted in order until the first block
+//@ ghost var gHotN Int
+//@ ghost var gHotRecv (Array Int Int)
+//@ ghost var gHotArg (Array Int Iface)
+//@ ghost var gHotBatch (Array Int Int)
+//@ ghost var gHotRes (Array Int Int)
+//@ ghost var gHotBlocked (Array Int Bool)
+//@ iface TrafficShapingController.PerformChecking(arg, batchCount) r
+//@   ensures gHotN == old(gHotN) + 1 && gHotRecv == upd(old(gHotRecv), old(gHotN), dynptr(this)) && gHotArg == upd(old(gHotArg), old(gHotN), arg) && gHotBatch == upd(old(gHotBatch), old(gHotN), batchCount)
+//@   ensures gHotRes == upd(old(gHotRes), old(gHotN), r) && gHotBlocked == upd(old(gHotBlocked), old(gHotN), blocked(r))
+//@   ensures r != nil ==> fresh(r)
+//@   modifies gHotN, gHotRecv, gHotArg, gHotBatch, gHotRes, gHotBlocked, gCache, cells(int64)
+
+//@ func (s *Slot) Check(ctx) r
+//@   props C05
+//@   requires ctx != nil && ctx.Resource != nil && ctx.Input != nil && !blocked(ctx.RuleCheckResult)
+//@   let tcs = tcMap[ctx.Resource.name]
+//@   let n0 = gHotN
+//@   requires forall k Int :: 0 <= k && k < len(tcs) ==> tcs[k] != nil
+//@   ensures[only-with-argument] forall j Int :: n0 <= j && j < gHotN ==> sel(gHotArg, j) != nil && sel(gHotBatch, j) == ctx.Input.BatchCount
+//@   ensures[no-argument-never-limited] (forall k Int :: 0 <= k && k < len(tcs) ==> tcs[k].ExtractArgs(ctx) == nil) ==> gHotN == n0 && r == old(ctx.RuleCheckResult)
+//@   ensures[first-block] blocked(r) ==> gHotN > n0 && r == sel(gHotRes, gHotN - 1) && sel(gHotBlocked, gHotN - 1)
+//@   ensures[none-earlier] forall j Int :: n0 <= j && j < gHotN - (blocked(r) ? 1 : 0) ==> !sel(gHotBlocked, j)
+//@   ensures[pass-unchanged] !blocked(r) ==> r == old(ctx.RuleCheckResult)
+//@   loop 1:
+//@     invariant[count] n0 <= gHotN && gHotN <= n0 + #i
+//@     invariant[no-block-yet] forall j Int :: n0 <= j && j < gHotN ==> !sel(gHotBlocked, j) && sel(gHotArg, j) != nil && sel(gHotBatch, j) == ctx.Input.BatchCount
+//@     invariant[skipped-without-argument] (forall k Int :: 0 <= k && k < #i ==> tcs[k].ExtractArgs(ctx) == nil) ==> gHotN == n0
